@@ -22,6 +22,7 @@ from harness import xcheck as X
 from harness import dtypeslib as D
 from harness import frames as F
 from harness import rt as RT
+from harness import splice as SP
 
 TRUSTED = [
     "Coq 8.16.1 kernel + coqc (vm_compute for the finite case analyses over the dtype tables); no native_compute",
@@ -35,6 +36,8 @@ TRUSTED = [
     "a datetime column named in the timezones is localised, an index keeps its dtype); pandas itself is not modelled - "
     "tied to the real code by the realise correspondence on every column of every case",
     "Python `in` on str = `contains` on the UTF-8 bytes (ASCII needles)",
+    "harness/splice.py: builds a valid file from the column chunks of a nested foreign file and of a flat written file (offsets shifted, "
+    "schema subtrees concatenated, footer rewritten); the nested columns decode identically to their source (checked when written)",
     "footers without Statistics / without null_count are produced by rewriting the footer of a written file on disk (same steps as "
     "writer.update_file_custom_metadata); pandas metadata is removed with the public update_file_custom_metadata",
 ]
@@ -162,10 +165,34 @@ def build_written(case, root):
     return path, df
 
 
+NESTED_SRC = "map_array.parq"          # 125 rows, one row group: 4 MAP fields (2 leaves each) and 4 LIST fields
+NESTED_FIELDS = ["map_op_op", "map_op_req", "map_req_op", "map_req_req", "arr_op_op", "arr_op_req", "arr_req_op", "arr_req_req"]
+NESTED_ROWS = 125
+
+
+def gen_spliced(rng):
+    """a VALID file with multi-leaf group fields BEFORE flat columns: the column chunks of 1-3 nested fields of a foreign
+    file spliced with the chunks of a flat frame written by fastparquet (harness/splice.py); no pandas metadata"""
+    spec = F.gen_spec(rng, n=NESTED_ROWS, ncols=rng.choice([2, 3, 4]), index=False,
+                      kinds=["int8", "int32", "int64", "uint16", "uint64", "Int16", "Int64", "UInt32", "boolean", "bool", "float64", "str", "dt_us", "cat_int"])
+    o = RT.gen_opts(rng, spec)
+    o.update(file_scheme="simple", row_group_offsets=None, write_index=False, partition_on=None, has_nulls=True)
+    k = rng.randint(1, 3)
+    fields = [f for f in NESTED_FIELDS if f in set(rng.sample(NESTED_FIELDS, k))]
+    if not any(f.startswith("map") for f in fields):
+        fields = [rng.choice(NESTED_FIELDS[:4])] + fields
+    return {"source": "spliced", "nested": NESTED_SRC, "fields": fields, "spec": spec, "wopts": o, "extra": [], "nomd": False}
+
+
 def open_case(case, root):
-    """-> path of the dataset of `case` (written now, or the foreign file), original frame or None"""
+    """-> path of the dataset of `case` (written now, spliced, or the foreign file), original frame or None"""
     if case["source"] == "written":
         return build_written(case, root)
+    if case["source"] == "spliced":
+        flat, _ = build_written(case, root)
+        out = os.path.join(root, "spliced.parquet")
+        SP.splice(out, os.path.join(C.REPO, "test-data", case["nested"]), case["fields"], flat)
+        return out, None
     return os.path.join(C.REPO, "test-data", case["rel"]), None
 
 
@@ -399,8 +426,10 @@ def examine(case, path, pq=None, ctx=None):
     has_md = bool(pf.has_pandas_metadata)
     md = {c["name"]: c for c in pf.pandas_metadata["columns"]} if has_md else {}
     rgs = D.rgs_args(pf)
+    paths = [".".join(c.meta_data.path_in_schema).encode() for c in pf.row_groups[0].columns] if pf.row_groups else []
     fields = [(name, f) for name, f in pf.schema.root["children"].items() if getattr(f, "isflat", False) is False]
-    ccase = {"source": case["source"], "file": case.get("rel") or {"spec": case["spec"], "wopts": case["wopts"], "extra": case.get("extra"), "nomd": case.get("nomd")}, "pn": pn,
+    ccase = {"source": case["source"], "file": case.get("rel") or {"spec": case["spec"], "wopts": case["wopts"], "extra": case.get("extra"), "nomd": case.get("nomd"),
+                                                                    "nested": case.get("fields")}, "pn": pn,
              "ropts": ro, "strip": case.get("strip")}
     for i, (name, f) in enumerate(fields):
         ent = md.get(name)
@@ -421,7 +450,7 @@ def examine(case, path, pq=None, ctx=None):
             cs0 = pf.row_groups[0].columns
             own = i < len(cs0) and ".".join(cs0[i].meta_data.path_in_schema) == name
             ctx.count("position", "chunk i is the field's own" if own else "chunk i is ANOTHER column's or missing (nested schema)")
-        m = D.res_from_sx(pq.call("predict", [True, True, True], has_md, pn, D.se_args(f), D.md_args(ent), i, rgs, as_cat))
+        m = D.res_from_sx(pq.call("predict", [True, True, True, True], has_md, pn, D.se_args(f), D.md_args(ent), paths, name.encode(), i, rgs, as_cat))
         ip = D.dt_of(pred[name])
         if ip[0] == "other":
             ctx.count("skipped", "dtype outside the model's universe: %s" % ip[1])
@@ -516,7 +545,9 @@ def run(ctx):
                 "nullable/tz/categorical index kinds) written by the real writer under the option tuples of harness/rt.py (row-group offsets, "
                 "has_nulls, stats, times int64/int96, v1/v2, compression, simple/hive, write_index), 20% of the non-empty ones partitioned "
                 "on a bool/int8/str/categorical column; (b) every readable file and _metadata directory under test-data; 15% of the "
-                "written files with Statistics or null_count removed from some row groups.  Read options per dataset (2-3 tuples): "
+                "written files with Statistics or null_count removed from some row groups; (c) VALID files with multi-leaf group fields "
+                "(MAP/LIST chunks of test-data/map_array.parq) spliced in front of the chunks of a flat 125-row frame written by fastparquet "
+                "(harness/splice.py).  Read options per dataset (2-3 tuples): "
                 "columns None/subset/shuffled, categories None/[]/list/dict of stored categoricals/a list naming a non-categorical column, "
                 "index None/False/name/two names, dtypes override, pandas_nulls True/False.  One case = (dataset, option tuple); "
                 "trivial = zero rows; distinct = distinct (dataset description, options)")
@@ -532,6 +563,8 @@ def run(ctx):
         sources.append({"source": "foreign", "rel": rel})
     for _ in range(nwritten):
         sources.append(gen_written(rng))
+    for _ in range(12 if ctx.quick() else 150):
+        sources.append(gen_spliced(rng))
     root = os.path.join(ctx.scratch, "w")
     os.makedirs(root, exist_ok=True)
     werr = 0
@@ -542,7 +575,7 @@ def run(ctx):
         if st == "unopenable":
             ctx.count("unopenable", case.get("rel", "written") + ": " + fails[0][:60])
             return
-        n = case["spec"]["n"] if case["source"] == "written" else None
+        n = case["spec"]["n"] if case["source"] != "foreign" else None
         slim = {k: v for k, v in case.items()}
         ctx.case(slim, trivial=(n == 0))
         ctx.count("source", case["source"] + ("/partitioned" if case["source"] == "written" and case["wopts"].get("partition_on") else ""))
@@ -552,7 +585,7 @@ def run(ctx):
         ctx.count("opt.columns", "subset" if case["ropts"]["columns"] is not None else "all")
         ctx.count("opt.dtypes", bool(case["ropts"]["dtypes"]))
         ctx.count("opt.strip", (case.get("strip") or {}).get("mode"))
-        ctx.count("pandas metadata", "removed on disk" if case.get("nomd") else ("foreign" if case["source"] == "foreign" else "as written"))
+        ctx.count("pandas metadata", "removed on disk" if case.get("nomd") else ("foreign" if case["source"] == "foreign" else ("none (spliced)" if case["source"] == "spliced" else "as written")))
         ctx.count("status", st)
         if orig is not None and st == "ok":
             fails = fails + written_dtype_check(case, orig, path, case["pn"])
@@ -584,7 +617,7 @@ def run(ctx):
             except Exception as e:       # noqa
                 ctx.count("unreadable (plain to_pandas() raises: C03)", src["rel"] + ": " + type(e).__name__)
                 continue
-        for k in range(per if src["source"] == "written" else (3 if ctx.quick() else 8)):
+        for k in range(per if src["source"] != "foreign" else (3 if ctx.quick() else 8)):
             case = dict(src)
             case["ropts"] = gen_ropts(rng, pf0) if k else {"columns": None, "categories": None, "index": None, "dtypes": None, "invalid_categories": False}
             case["pn"] = (rng.random() < 0.5) if k else True
@@ -610,8 +643,8 @@ def replay(rep):
         if orig is not None and st == "ok":
             fails = fails + written_dtype_check(case, orig, path, case["pn"])
         print("dataset: %s; read options %s; pandas_nulls=%s; strip=%s" % (
-            case.get("rel") or ("written frame n=%d kinds=%s extra=%s nomd=%s wopts=%s" % (case["spec"]["n"], [c["kind"] for c in case["spec"]["cols"]],
-                                                                                             [x["kind"] for x in case.get("extra") or []], case.get("nomd"), case["wopts"])),
+            case.get("rel") or ("%s frame n=%d kinds=%s extra=%s nomd=%s nested=%s wopts=%s" % (case["source"], case["spec"]["n"], [c["kind"] for c in case["spec"]["cols"]],
+                                                                                                  [x["kind"] for x in case.get("extra") or []], case.get("nomd"), case.get("fields"), case["wopts"])),
             case["ropts"], case["pn"], case.get("strip")))
         if st != "ok":
             print("status:", st, fails if st == "unopenable" else "")
